@@ -126,7 +126,9 @@ def _worker(driver, family, cases, results, env, per_case_timeout, args, scratch
         os.unlink(fout)
         if done_here >= len(batch):
             return
-        stderr = (errbuf[0] if errbuf else "")[-4000:]
+        stderr = (errbuf[0] if errbuf else "")
+        if len(stderr) > 6000:
+            stderr = stderr[:3000] + "\n...\n" + stderr[-3000:]
         cid = inflight if inflight is not None else str(batch[done_here].get("id"))
         k = next((j for j, c in enumerate(batch) if str(c.get("id")) == cid), done_here)
         results[cid] = {"crash": True, "rc": rc, "stderr": stderr, "timeout": rc == -9,
